@@ -79,6 +79,15 @@ CHECKS["C13"] = dict(
     note="Local optimality of a free delta is only judged where (0.5/n)^(1/delta) >= 1e-10 (computable plotting-position transform); fmin's own tolerance bounds delta.",
     design="7/C13",
 )
+CHECKS["C12"] = dict(
+    technique="property-based testing (Hypothesis): likelihood-dominance oracle (fit vs start vs generating parameters) and scale metamorphic relation; statistical known findings guarded by incidence limits",
+    text="Generated (family, regular generating parameters, n 100-5000, seed, default or user start, scale factor). The harness' log-likelihood of the data under the fitted instance must not be "
+         "below the start nor the generating parameters (tolerance 1e-6|ll|+1e-2); parameters finite and admissible; c*data must give c-scaled location/scale estimates (parameter-wise for "
+         "Normal, LogNormal, LogNormalNormFit, 2-parameter Weibull; through the fitted law for ridge families in the regular MLE regime). Four recorded known findings (optimiser stall of "
+         "3-parameter Weibull / loc-free scipy gamma / far user starts of the generalised gamma; LogNormalNormFit is a moment estimator) are reported as KNOWN-FINDING and their incidence is bounded.",
+    note="Says nothing about global optimality beyond the alternatives tried; equivariance of location-free families only where shape >= 1.2 (bounded likelihood).",
+    design="7/C12",
+)
 NOT_YET = {}
 
 def main():
